@@ -153,6 +153,7 @@ def run(tier):
         gql = "None" if "gql" not in obs else f"(Some {coq_list(map(coq_str, obs['gql']))})"
         items.append(f"({DYN[c['dyn']][1]}, {CA[c['ca']][1]}, {CA[c['ca_inner']][1]}, {fcoq}, {icoq}, {ocoq}, {dr}, {val}, {gql})")
         meta.append(dict(info, views=obs))
+    extra_probe(R)
     T = ("(string -> string) * option (string -> string) * option (string -> string) * list nfield * list nfield * "
          "list (string * list string) * option (string * list string * list (list string)) * option (string * string) * "
          "option (list string)")
@@ -291,6 +292,110 @@ def graphql_view(R, mod, c, kw, info, obs):
         return {}
     R.count("graphql:compared")
     return {"gql": list(tp.fields)}
+
+
+EXTRA_SRC = '''
+from dataclasses import dataclass, field
+from typing import Generic, List, Optional, TypeVar
+from apischema import alias, validator
+from apischema.objects import get_alias
+
+T = TypeVar("T")
+
+@alias(lambda s: "p_" + s)
+@dataclass
+class Page(Generic[T]):
+    page_items: List[T]
+    page_size: int = 10
+    raw_name: int = field(default=0, metadata=alias(override=False))
+
+    @validator
+    def check(self):
+        if self.page_size == 99:
+            yield (get_alias(self).page_size, "bad size")
+
+@dataclass
+class Book:
+    pages: Page[int]
+    first_field: int = 0
+    second_field: int = field(default=0)
+
+    @validator(discard="first_field")
+    def v1(self):
+        if self.first_field == 99:
+            yield (get_alias(self).first_field, "v1 bad")
+
+    @validator
+    def v2(self):
+        if self.second_field == 99:
+            yield (get_alias(self).second_field, "v2 bad")
+
+    @validator(second_field)
+    def v3(self):
+        if self.second_field == 98:
+            yield "v3 bad"
+'''
+
+
+def extra_probe(R):
+    """generic class with a class aliaser used parametrized; validators after a discarding failure"""
+    import apischema.cache
+    from apischema import deserialize, serialize, ValidationError
+    from apischema.json_schema import deserialization_schema, serialization_schema
+    from apischema.utils import to_camel_case
+    apischema.cache.reset()
+    mod = pyrun.exec_module(EXTRA_SRC)
+    info = dict(source=EXTRA_SRC)
+    try:
+        Page, Book = mod.Page, mod.Book
+        for aname, al in (("id", lambda s: s), ("camel", to_camel_case), ("custom", lambda s: s + "_x")):
+            exp_page = [al("p_page_items"), al("p_page_size"), al("raw_name")]
+            for tp in (Page[int], Page[str]):
+                v = Page([1] if tp == Page[int] else ["a"], 5, 2)
+                R.count("generic_probe")
+                out = serialize(tp, v, aliaser=al)
+                if list(out) != exp_page:
+                    R.violation(f"serialize({tp}) keys {list(out)} differ from the external names {exp_page} (aliaser {aname})", info)
+                    continue
+                if deserialize(tp, out, aliaser=al) != v:
+                    R.violation(f"deserialize({tp}) does not consume the keys serialize produces (aliaser {aname})", info)
+                for fn in (deserialization_schema, serialization_schema):
+                    doc = fn(tp, aliaser=al, with_schema=False, all_refs=False)
+                    props = list(doc.get("properties", doc.get("$defs", {}).get("Page", {}).get("properties", {})))
+                    if props != exp_page:
+                        R.violation(f"{fn.__name__}({tp}) properties {props} differ from {exp_page} (aliaser {aname})", info)
+                try:
+                    deserialize(tp, dict(out, **{exp_page[1]: 99}), aliaser=al)
+                    R.violation("validator did not fail", info)
+                except ValidationError as e:
+                    locs = [x["loc"] for x in e.errors]
+                    if locs != [[exp_page[1]]]:
+                        R.violation(f"validator location {locs} differs from [[{exp_page[1]!r}]] for {tp} (aliaser {aname})", info)
+            # validators after a discarding failure keep the dynamic aliaser
+            data = {al("pages"): {exp_page[0]: [1]}, al("first_field"): 99, al("second_field"): 99}
+            R.count("discard_probe")
+            try:
+                deserialize(Book, data, aliaser=al)
+                R.violation("validators did not fail", info)
+            except ValidationError as e:
+                locs = sorted(tuple(x["loc"]) for x in e.errors)
+                want = sorted([(al("first_field"),), (al("second_field"),)])
+                if locs != want:
+                    R.violation(f"validator locations {locs} differ from the external names {want} (aliaser {aname})", info)
+            data[al("second_field")] = 98
+            try:
+                deserialize(Book, data, aliaser=al)
+                R.violation("validators did not fail", info)
+            except ValidationError as e:
+                locs = sorted(tuple(x["loc"]) for x in e.errors)
+                want = sorted([(al("first_field"),), (al("second_field"),)])
+                if locs != want:
+                    R.violation(f"field validator location {locs} differs from the external names {want} (aliaser {aname})", info)
+    except Exception as e:
+        R.violation(f"{type(e).__name__} in the generic / discard probe: {e}", info)
+    finally:
+        pyrun.drop_module(mod)
+        apischema.cache.reset()
 
 
 def replay(data):
